@@ -38,17 +38,47 @@ func (bufs Buffers) ReadFrom(r io.Reader) (int64, error) {
 	}
 
 	var total int64
-	for _, buf := range bufs {
+	for i, buf := range bufs {
+		empty := 0
 		for filled := 0; filled < len(buf); {
 			n, err := r.Read(buf[filled:])
 			total += int64(n)
 			filled += n
-			if (n == 0 && err == nil) || err == io.EOF {
+			switch {
+			case err == io.EOF:
+				// A reader may report the end of the stream together
+				// with its last bytes. If they complete the buffers,
+				// nothing is missing.
+				if filled == len(buf) && noneLeft(bufs[i+1:]) {
+					return total, nil
+				}
 				return total, io.EOF
-			} else if err != nil {
+			case err != nil:
 				return total, err
+			case n == 0:
+				// Nothing happened (see io.Reader); this is not the
+				// end of the stream.
+				if empty++; empty >= maxConsecutiveEmptyReads {
+					return total, io.ErrNoProgress
+				}
+			default:
+				empty = 0
 			}
 		}
 	}
 	return total, nil
+}
+
+// maxConsecutiveEmptyReads is the number of reads in a row that may return no
+// bytes and no error before ReadFrom gives up (as in bufio).
+const maxConsecutiveEmptyReads = 100
+
+// noneLeft reports whether there is no space left to fill in bufs.
+func noneLeft(bufs Buffers) bool {
+	for _, buf := range bufs {
+		if len(buf) != 0 {
+			return false
+		}
+	}
+	return true
 }
